@@ -31,6 +31,20 @@ CONSISTENTLY from the corpus, or one much longer / deeper than the corpus frames
           ICMPv6 / IGMP type, GRE flag word, VXLAN flags, LLC control, MPLS / VLAN fields) over well-formed payloads
   deep.*  every self-nesting header and every element list repeated N times, N on a ladder up to the largest frame
           an ofp_packet_in can carry (65517 bytes), plus payload sizes on the same ladder
+  val.*   (mc/refs/pktgrammar_val.py) every field whose value is an identifier, a family-tagged address or text (LLDP
+          ids / names / management address / organisationally specific, DHCP text and id options and sname / file, DNS
+          labels and RDATA, EAP type data) x a content alphabet: address family x address size, bare addresses, texts
+          (numeric-looking, printf directives, NUL, control characters, malformed UTF-8, ...) - what a printer or decoder
+          keyed on several bytes at once (sub-type + family + size) is sensitive to
+  sel.iplen  IPv4 total length / IPv6 payload length / UDP length below, at and above the bytes present x every kind of
+          upper layer (dispatched-on and unknown), and trailing padding behind EAPOL / ARP
+
+Logging is a configuration dimension: a controller runs with the root logger at INFO (pox.boot), DEBUG (--verbose) or
+with the packet logger turned down, and whether a parser's log call is carried out and its message formatted depends
+on it.  Every case runs with the root logger at DEBUG and a handler that really formats every record (LOG_MODES[0]);
+the families valid and trunc (thorough: also byte, fix-trunc, fix-byte and every grammar group but deep.*) run in the
+other three configurations as well (logging disabled, root at WARNING, root at INFO).  A violation's replay names the
+configuration.
 The group descriptions (type sets, length sets, ladders, quick-tier caps) are in rep.rule.  Frames of more than 1024
 bytes get a step budget that grows with the frame (jump_budget), a chain limit that grows with the frame
 (chain_limit), and str() / len() on a subset of the headers of a long chain (header_subset).  Every case runs with
@@ -80,6 +94,7 @@ from mc.refs.pktcorpus import corpus, CORPUS_PATHS
 from mc.refs import pktcorpus as K
 from mc.refs import rfc1071 as R
 from mc.refs import pktgrammar as G
+from mc.refs import pktgrammar_val                  # registers the val.* / sel.iplen groups into G.GROUPS
 
 PID = "C15"
 MAX_CHAIN = 32             # links; the deepest valid corpus chain has 7 (frames of > 96 bytes: one link per 3 bytes, see chain_limit)
@@ -259,7 +274,7 @@ def pox_namespace ():
   global _P
   if _P is not None: return _P
   import logging
-  logging.getLogger().addHandler(logging.NullHandler())
+  logging.getLogger().addHandler(FormatHandler.make())
   logging.disable(logging.CRITICAL)
   import pox.lib.packet as pkt
   from pox.lib.packet.packet_base import packet_base
@@ -276,6 +291,58 @@ def pox_namespace ():
   P.guard = make_guard(P)
   _P = P
   return P
+
+
+# Logging configurations a controller process can run with (a configuration dimension of the enumeration: whether a
+# parser's log call is really carried out, and its message really formatted, depends on it):
+#   off      logging.disable(CRITICAL) - what this harness and mc.env.boot() used to impose on every case
+#   warning  root logger at WARNING - a bare Python process that imports pox.lib.packet, or `log.level --packet=WARNING`
+#   info     root logger at INFO - what pox.boot._setup_logging() configures, i.e. every controller started by pox.py
+#   debug    root logger at DEBUG - pox.py --verbose / log.level --DEBUG
+# In every configuration but `off` the root logger has a handler that formats each record the way the StreamHandler
+# installed by pox.boot does (logging.BASIC_FORMAT) and discards the text.
+LOG_MODES = ("debug", "off", "warning", "info")        # first = the configuration every case is run in
+LOG_LEVEL = {"off": None, "warning": 30, "info": 20, "debug": 10}
+LOG_REPLAY_DEFAULT = "off"                              # replay files written before the dimension existed
+
+class FormatHandler (object):
+  """Factory of the root handler (a logging.Handler subclass made on first use, so that importing this module does
+  not import logging before mc.run has set things up).  emit() formats the record like logging.StreamHandler would
+  and drops the text; an error while formatting is swallowed and counted, as Handler.handleError does in a
+  controller (it prints to stderr there; it never reaches the code that logged, so the statement is silent on it)."""
+  instance = None
+  @staticmethod
+  def make ():
+    import logging
+    if FormatHandler.instance is None:
+      class _H (logging.Handler):
+        format_errors = 0
+        records = 0
+        def emit (self, record):
+          try:
+            self.format(record)
+            _H.records += 1
+          except Exception:
+            _H.format_errors += 1
+      h = _H(level=logging.NOTSET)
+      h.setFormatter(logging.Formatter(logging.BASIC_FORMAT))
+      FormatHandler.instance = h
+    return FormatHandler.instance
+
+
+_LOG_MODE = [None]
+
+def set_logging (mode):
+  """Put the process into one of the LOG_MODES (cheap when it is already there)."""
+  if _LOG_MODE[0] == mode: return
+  import logging
+  level = LOG_LEVEL[mode]
+  if level is None:
+    logging.disable(logging.CRITICAL)
+  else:
+    logging.getLogger().setLevel(level)
+    logging.disable(logging.NOTSET)
+  _LOG_MODE[0] = mode
 
 
 _INSIDE = {}
@@ -460,8 +527,8 @@ MISSING = _Missing()
 
 class Case (object):
   """One mutant examined.  bad: list of (key suffix, what); sig: digestable outcome."""
-  def __init__ (self, P, data, budget=None):
-    self.P = P; self.data = data
+  def __init__ (self, P, data, budget=None, mode=LOG_MODES[0]):
+    self.P = P; self.data = data; self.mode = mode
     self.budget = budget or (jump_budget(len(data)) if GUARD != "line" else LINE_BUDGET * (jump_budget(len(data)) // JUMP_BUDGET))
     self.limit = chain_limit(len(data)); self.gaveup = False
     self.bad = []; self.sites = {}; self.broken = None; self.calls = 0; self.sig = []; self.text = None; self.maxlines = 0
@@ -604,6 +671,7 @@ class Case (object):
   def run (self):
     old = sys.getrecursionlimit()
     sys.setrecursionlimit(stack_depth() + HEADROOM)
+    set_logging(self.mode)
     try:
       return self._run()
     finally:
@@ -695,8 +763,8 @@ def shape_of (chain, term):
 
 FAMILY_ORDER = {"valid": 0, "trunc": 1, "byte": 2, "byte255": 3, "pair": 4, "fix-trunc": 5, "fix-byte": 6, "fix-byte255": 7, "fix-pair": 8}
 
-def describe (name, family, L, p, v, frame):
-  d = dict(frame=name, family=family, length=L, full_length=len(frame))
+def describe (name, family, L, p, v, frame, mode):
+  d = dict(frame=name, family=family, length=L, full_length=len(frame), logging=mode)
   if p is not None:
     d["pos"] = p; d["value"] = v; d["was"] = frame[p]
   return d
@@ -705,12 +773,12 @@ def describe (name, family, L, p, v, frame):
 def order_key (replay):
   """Total order on counterexamples: shortest input first, then simplest family, then bytes."""
   return (replay["length"], FAMILY_ORDER.get(replay.get("family"), 9), replay.get("pos") is not None,
-          replay.get("hex", ""), replay.get("frame", ""))
+          replay.get("hex", ""), replay.get("frame", ""), LOG_MODES.index(replay.get("logging", LOG_REPLAY_DEFAULT)))
 
 
-def describe_g (group, label, data, thorough):
+def describe_g (group, label, data, thorough, mode):
   """Replay descriptor of a grammar frame: by value when short, else by name (regenerated from mc/refs/pktgrammar)."""
-  d = dict(frame=label, family=group, length=len(data), full_length=len(data))
+  d = dict(frame=label, family=group, length=len(data), full_length=len(data), logging=mode)
   if len(data) <= HEX_MAX: d["hex"] = data.hex()
   else: d["regenerate"] = dict(group=group, label=label, thorough=bool(thorough))
   return d
@@ -726,23 +794,24 @@ def replay_bytes (data):
 
 def _gworker (item):
   """Grammar frames (mc/refs/pktgrammar.py): each frame of the group is examined as it is."""
-  _, group, i, n, thorough = item
+  _, group, i, n, thorough, mode = item
   P = pox_namespace()
   rep = Report(PID, "exploration")
   best = {}
   maxlines = 0
   for j, (label, data) in enumerate(G.cases(group, thorough)):
     if j % n != i: continue
-    c = Case(P, data).run()
+    c = Case(P, data, mode=mode).run()
     rep.evaluations += 1
     rep.transitions += c.calls
     if c.maxlines > maxlines: maxlines = c.maxlines
     rep.outcome((label.split(":")[0], tuple(c.sig)))
     if c.bad:
-      replay = describe_g(group, label, data, thorough)
+      replay = describe_g(group, label, data, thorough, mode)
       ok = order_key(replay)
       for k, what in c.bad:
         key = "%s:%s" % (PID, k)
+        what = "%s (logging=%s)" % (what, mode)
         cur = best.get(key)
         if cur is None:
           best[key] = [ok, what, replay, 1]
@@ -750,7 +819,7 @@ def _gworker (item):
           cur[3] += 1
           if ok < cur[0]: cur[0], cur[1], cur[2] = ok, what, replay
     elif j % 997 == 0 and len(data) <= 200 and len(rep.samples) < 1:
-      rep.sample(dict(case=dict(frame=label, family=group, length=len(data), hex=data.hex()), path=group,
+      rep.sample(dict(case=dict(frame=label, family=group, length=len(data), hex=data.hex(), logging=mode), path=group,
                       chain=jsonable_shape(c.sig), dump=c.text))
   rep.extra["_best"] = best
   rep.extra["_maxlines"] = maxlines
@@ -759,7 +828,7 @@ def _gworker (item):
 
 def _worker (item):
   if item[0] == "g": return _gworker(item)
-  family, name, i, n = item
+  family, name, i, n, mode = item
   P = pox_namespace()
   frame = frames()[name]
   rep = Report(PID, "exploration")
@@ -768,16 +837,17 @@ def _worker (item):
   for j, (L, p, v) in enumerate(cases(family, frame)):
     if j % n != i: continue
     data = mutant(family, frame, L, p, v)
-    c = Case(P, data).run()
+    c = Case(P, data, mode=mode).run()
     rep.evaluations += 1
     rep.transitions += c.calls
     if c.maxlines > maxlines: maxlines = c.maxlines
     rep.outcome((name, tuple(c.sig)))
     if c.bad:
-      replay = describe(name, family, L, p, v, frame); replay["hex"] = data.hex(); replay["length"] = len(data)
+      replay = describe(name, family, L, p, v, frame, mode); replay["hex"] = data.hex(); replay["length"] = len(data)
       ok = order_key(replay)
       for k, what in c.bad:
         key = "%s:%s" % (PID, k)
+        what = "%s (logging=%s)" % (what, mode)
         cur = best.get(key)
         if cur is None:
           best[key] = [ok, what, replay, 1]
@@ -786,7 +856,7 @@ def _worker (item):
           if ok < cur[0]: cur[0], cur[1], cur[2] = ok, what, replay
     elif family == "valid" or (family == "trunc" and L == len(frame) // 2) or (family == "byte" and p == 12 and j % 5 == 0):
       if len(rep.samples) < 2:
-        rep.sample(dict(case=describe(name, family, L, p, v, frame), path=PATHS.get(name),
+        rep.sample(dict(case=describe(name, family, L, p, v, frame, mode), path=PATHS.get(name),
                         chain=jsonable_shape(c.sig), dump=c.text))
   rep.extra["_best"] = best
   rep.extra["_maxlines"] = maxlines
@@ -811,9 +881,21 @@ def group_items (cfg):
       if g.startswith(pre): n = k
     if not cfg.quick: n *= 2
     if g == "deep.quote": n = 8             # (building its checksummed nestings costs more than examining a slice of them)
-    for i in range(n):
-      items.append(("g", g, i, n, not cfg.quick))
+    for mode in modes_for(cfg, g):
+      for i in range(n):
+        items.append(("g", g, i, n, not cfg.quick, mode))
   return items
+
+
+SECONDARY_Q = ("valid", "trunc")                                            # quick: families also run in the other logging configurations
+SECONDARY_T = ("valid", "trunc", "byte", "fix-trunc", "fix-byte")           # thorough: ... plus every grammar group but deep.*
+
+def modes_for (cfg, fam):
+  """Logging configurations a family / grammar group is run in: LOG_MODES[0] (everything formatted) always; the
+  others for the families above."""
+  if cfg.quick: more = fam in SECONDARY_Q
+  else: more = fam in SECONDARY_T or (fam in G.GROUPS and not fam.startswith("deep."))
+  return LOG_MODES if more else LOG_MODES[:1]
 
 
 def work_items (cfg):
@@ -830,8 +912,9 @@ def work_items (cfg):
       elif fam in ("byte255", "fix-byte255"): n = 4
       elif fam in ("fix-trunc", "fix-byte"): n = 1
       else: n = max(1, min(SLICES_T * 4, (len(C[name]) ** 2) // 1500))
-      for i in range(n):
-        items.append((fam, name, i, n))
+      for mode in modes_for(cfg, fam):
+        for i in range(n):
+          items.append((fam, name, i, n, mode))
   return items
 
 
@@ -847,7 +930,9 @@ def run (cfg):
               "with a wrong checksum). Each mutant is parsed by ethernet(raw=) and via ofp_packet_in pack/unpack -> "
               "PacketIn.parsed, walked along .next, printed (str of every header, dump), re-packed and measured (len of every header), every phase "
               "under a budget of %d %s (frames of more than 1024 bytes: + n*(16+n/64)) and with %d interpreter stack frames of headroom. "
-              "PLUS the structure-aware frames of mc/refs/pktgrammar.py, each examined as it is in the same way (%s tier): %s. "
+              "Logging configuration is a dimension: every case runs with the root logger at DEBUG and a formatting handler, the families "
+              "%s also with logging disabled, root at WARNING and root at INFO. "
+              "PLUS the structure-aware frames of mc/refs/pktgrammar.py and pktgrammar_val.py, each examined as it is in the same way (%s tier): %s. "
               "distinct = distinct (frame or grammar family, header chain with parsed flags, raising sites, "
               "pack()==input) digests; cases = distinct (family, frame, length, position, value) descriptors resp. distinct grammar labels"
               % (len(C), sum(len(f) for f in C.values()),
@@ -856,11 +941,11 @@ def run (cfg):
                  sum(1 for f in C.values() if is_icmp6(f)),
                  LINE_BUDGET if GUARD == "line" else JUMP_BUDGET,
                  "traced lines of pox/lib/packet" if GUARD == "line" else "loop iterations (backward jumps) inside the POX tree",
-                 HEADROOM, cfg.tier,
+                 HEADROOM, ", ".join(SECONDARY_Q if cfg.quick else SECONDARY_T + ("and every grammar group but deep.*",)), cfg.tier,
                  "; ".join("[%s] %s" % (g, G.GROUPS[g][1]) for g in sorted(G.GROUPS))))
   rep.bound = dict(frames=len(C), families=fams, first_bytes_all_values=(0 if cfg.quick else FIRST),
                    guard=GUARD, budget=(LINE_BUDGET if GUARD == "line" else JUMP_BUDGET), max_chain=MAX_CHAIN,
-                   grammar_groups=sorted(G.GROUPS), max_frame=G.MAX_FRAME, stack_headroom=HEADROOM,
+                   logging_modes=list(LOG_MODES), grammar_groups=sorted(G.GROUPS), max_frame=G.MAX_FRAME, stack_headroom=HEADROOM,
                    quick_level_cap_of_checksummed_nestings=(G.QUAD_CAP if cfg.quick else None))
   rep.assumptions = ["single-byte corruption (and truncation x single-byte corruption in the thorough tier) of the corpus "
                      "frames, plus the structure-aware frames of the grammar groups (stated type sets x length sets, element "
@@ -874,7 +959,10 @@ def run (cfg):
                      "depths on the ladder 8,12,16,24,...); dump() and pack() of the top header still visit all of them" % LONG_CHAIN,
                      "the statement does not say what a corrupted frame parses to: only totality, preservation of "
                      "unparsed bytes and printability / re-serialisability are checked",
-                     "logging is disabled (the parsers' warnings are not observed)"]
+                     "logging: every case with the root logger at DEBUG and a handler that formats every record (pox.boot's "
+                     "BASIC_FORMAT) and drops the text; the families %s also with logging disabled, root at WARNING and root at "
+                     "INFO; the text of the parsers' warnings is not examined, and an error inside a handler's formatting is "
+                     "swallowed as logging.Handler.handleError does" % (", ".join(SECONDARY_Q if cfg.quick else SECONDARY_T + ("every grammar group but deep.*",)),)]
   best = {}
   maxlines = 0
   samples = []
@@ -912,10 +1000,11 @@ def explains (known_key, key):
 def replay (cfg, data):
   P = pox_namespace()
   raw = replay_bytes(data)
-  c = Case(P, raw).run()
-  lines = ["frame %s  family=%s  length=%s/%s  pos=%s value=%s (was %s)"
+  mode = data.get("logging", LOG_REPLAY_DEFAULT)
+  c = Case(P, raw, mode=mode).run()
+  lines = ["frame %s  family=%s  length=%s/%s  pos=%s value=%s (was %s)  logging=%s"
            % (data.get("frame"), data.get("family"), data.get("length"), data.get("full_length"),
-              data.get("pos"), data.get("value"), data.get("was")),
+              data.get("pos"), data.get("value"), data.get("was"), mode),
            "input  %s" % (raw.hex() if len(raw) <= HEX_MAX else "%s... (%d bytes, regenerated from mc/refs/pktgrammar.py)" % (raw[:64].hex(), len(raw))),
            "chain  %r" % (c.sig[0] if c.sig else None,),
            "dump   %r" % (c.text,)]
